@@ -299,6 +299,10 @@ def hist_worker(case):
                     else:
                         sim.model.update_parameter(k, v)
                     out["outs"].append(None)
+                elif op[0] == "edit":
+                    # a structural edit of the model the Simulator holds, NOT followed by a re-initialisation
+                    edit_model(sim.model, op[1])
+                    out["outs"].append(None)
                 elif op[0] == "reinit":
                     if op[1] == "clear_results":
                         sim.clear_results()
@@ -309,7 +313,16 @@ def hist_worker(case):
                 else:
                     jf = sim.integrator.jacobian
                     t, xs = float(Fraction(op[1])), [float(Fraction(v)) for v in op[2]]
-                    out["outs"].append({"ok": None} if jf is None else {"ok": _mat(jf(t, xs), nv)})
+                    if jf is None:
+                        out["outs"].append({"ok": None})
+                    else:
+                        try:
+                            out["outs"].append({"ok": _mat(jf(t, xs), nv)})
+                        except ZeroDivisionError:
+                            raise
+                        except Exception as e:  # noqa: BLE001
+                            # the exception would escape from the solver; the Simulator (and the closure) stay in use
+                            out["outs"].append({"raised": _exc(e)["err"]})
             except ZeroDivisionError:
                 out["outs"].append("ZeroDivisionError")
                 break
@@ -321,6 +334,23 @@ def hist_worker(case):
         lg.setLevel(old_level)
 
 
+def hist_contents(case):
+    """the content of the model before every operation of the history (parameter values and edits applied)"""
+    c = copy.deepcopy(case["content"])
+    out = []
+    for op in case["hist"]:
+        out.append(c)
+        if op[0] == "set":
+            c = copy.deepcopy(c)
+            for k, v in c["pars"]:
+                if k == op[1]:
+                    v.clear()
+                    v["v"] = op[2]
+        elif op[0] == "edit":
+            c = apply_edit(c, op[1])
+    return out
+
+
 def gen_hist(rng, content, n_ops):
     """operations on the plain parameters of `content` (values stay small positive dyadics, so that arithmetic is
     exact and denominators rarely vanish), re-initialisations and Jacobian calls"""
@@ -328,6 +358,9 @@ def gen_hist(rng, content, n_ops):
     ia = [k for k, v in content["pars"] if "v" not in v]
     ops = []
     calls = 0
+    cur_content = content
+    # user-defined (localised) functions are left alone: an edit would need a function of the same Python name
+    edits = all("py" not in f for f in _fns_of(content))
     for i in range(n_ops):
         r = rng.random()
         if (r < 0.45 and (cur or ia)) and i < n_ops - 1:
@@ -351,7 +384,24 @@ def gen_hist(rng, content, n_ops):
                 arg = None
             cur[k] = v
             ops.append(["set", k, num(v), api, arg])
-        elif r < 0.6 and i < n_ops - 1:
+        elif r < 0.57 and i < n_ops - 1 and edits:
+            # another rate law for a reaction / another function for a derived quantity, over names that stay symbols
+            base = [k for k, v in content["vars"]] + [k for k, v in content["pars"] if "v" in v]
+            if rng.random() < 0.3:
+                # the numeric model accepts `time`, the symbolic one has no such symbol: from now on the conversion raises
+                base = base + ["time", "time"]
+            rational = not is_poly(content)
+            if cur_content["derived"] and rng.random() < 0.4:
+                k, _old = rng.choice(cur_content["derived"])
+                new = _mk(rng, rng.choice(DER_FNS_POLY + (DER_FNS_RAT if rational else [])), base)
+                e = {"op": "update_derived", "name": k, "fn": new}
+            else:
+                k, _old = rng.choice(cur_content["rxns"])
+                new = _mk(rng, rng.choice(RATE_FNS_POLY + (RATE_FNS_RAT if rational else [])), base)
+                e = {"op": "update_reaction", "name": k, "fn": new}
+            cur_content = apply_edit(cur_content, e)
+            ops.append(["edit", e])
+        elif r < 0.68 and i < n_ops - 1:
             ops.append(["reinit", rng.choice(["clear_results", "update_variable"])])
         else:
             ops.append(["call", str(rng.choice([0, 1, 2])), [str(rng.choice([1, 2, 3, 5])) for _ in content["vars"]]])
@@ -362,8 +412,18 @@ def gen_hist(rng, content, n_ops):
 
 
 def hist_req(case):
-    return {"op": "c12", "content": wire_content(case["content"]), "points": [],
-            "hist": [op[:3] if op[0] == "set" else op[:1] if op[0] == "reinit" else op for op in case["hist"]]}
+    cs = hist_contents(case)
+    ops = []
+    for i, op in enumerate(case["hist"]):
+        if op[0] == "set":
+            ops.append(op[:3])
+        elif op[0] == "reinit":
+            ops.append(op[:1])
+        elif op[0] == "edit":
+            ops.append(["edit", wire_content(apply_edit(cs[i], op[1]))])
+        else:
+            ops.append(op)
+    return {"op": "c12", "content": wire_content(case["content"]), "points": [], "hist": ops}
 
 
 def judge_hist(ctx, case, R, M):
@@ -390,7 +450,7 @@ def judge_hist(ctx, case, R, M):
             ctx.add_drift(sub, [o.get("m") for o in mouts], M["hist"]["run"], "Lean runG differs from iterated stepG")
     for i, (op, ro) in enumerate(zip(case["hist"], R["outs"])):
         mo = None if mouts is None or i >= len(mouts) else mouts[i]
-        kind = op[0] if op[0] != "set" else "set:" + op[3]
+        kind = "set:" + op[3] if op[0] == "set" else "edit:" + op[1]["op"] if op[0] == "edit" else op[0]
         ctx.hist["hist_op:" + kind] = ctx.hist.get("hist_op:" + kind, 0) + 1
         if ro == "ZeroDivisionError":
             ctx.hist["hist_stopped_ZeroDivisionError"] = ctx.hist.get("hist_stopped_ZeroDivisionError", 0) + 1
@@ -413,11 +473,24 @@ def judge_hist(ctx, case, R, M):
         if sv is None:
             # no driver: R alone says nothing
             continue
-        s_ = sv.get("ok") if "ok" in sv else sv
-        m_ = mv.get("ok") if isinstance(mv, dict) and "ok" in mv else mv
-        r_ = ro["ok"]
+        # a call that raises hands no matrix over: allowed exactly when a fresh Simulator on this content would not hand
+        # one over either (the conversion fails: it has no Jacobian, or its `jac_fn` raises)
+        NOMAT = "no matrix"
+        s_ = (sv.get("ok") if sv.get("ok") is not None else NOMAT) if "ok" in sv else NOMAT
+        if isinstance(mv, dict) and "raised" in mv:
+            m_ = NOMAT
+        else:
+            m_ = mv.get("ok") if isinstance(mv, dict) and "ok" in mv else mv
+            m_ = NOMAT if m_ is None else m_
+        if "raised" in ro:
+            r_ = NOMAT
+            ctx.hist["hist_call_raised:" + ro["raised"][0]] = ctx.hist.get("hist_call_raised:" + ro["raised"][0], 0) + 1
+        else:
+            r_ = NOMAT if ro["ok"] is None else ro["ok"]
+        if isinstance(mv, dict) and (("raised" in mv) != ("raised" in ro)):
+            ctx.add_drift(dict(sub, upto=i), ro, mv, "history: the real closure raises / the Lean closure does not (or vice versa)")
         ctx.hist["hist_call_judged"] = ctx.hist.get("hist_call_judged", 0) + 1
-        v = ctx.judge(dict(sub, upto=i), _snap(r_, s_, exact) if r_ is not None and s_ is not None else r_, s_, m_,
+        v = ctx.judge(dict(sub, upto=i), _snap(r_, s_, exact) if NOMAT not in (r_, s_) else r_, s_, m_,
                       what="history: the matrix the integrator gets = Jacobian of the model's current content")
         if v == "violation":
             return
@@ -1157,6 +1230,23 @@ def history_stratum(ctx, rng):
          ["call", "0", None]],
     ]
     for c in corpus():
+        # F-C12-5's shape: a reaction gets another rate law through `sim.model`, then the integrator calls the Jacobian
+        cc = c["content"]
+        if cc["rxns"] and should_convert(cc) == "ok" and all("py" not in f for f in _fns_of(cc)):
+            k, r = cc["rxns"][0]
+            plainp = [x for x, v in cc["pars"] if "v" in v]
+            base = [x for x, _ in cc["vars"]] + plainp
+            new = fn_ref("mass_action_2s", [base[0], base[-1], base[0]])
+            pt = ["2" for _ in cc["vars"]]
+            cases.append({"content": cc, "hist": [["call", "0", pt], ["edit", {"op": "update_reaction", "name": k, "fn": new}],
+                                                  ["call", "0", pt], ["reinit", "clear_results"], ["call", "1", pt]]})
+            # a recompilation that fails (the edited model takes `time`), the call repeated, then a model that converts again
+            bad = fn_ref("mass_action_1s", [base[0], "time"])
+            cases.append({"content": cc, "hist": [["edit", {"op": "update_reaction", "name": k, "fn": bad}], ["call", "0", pt],
+                                                  ["call", "0", pt],
+                                                  *([["set", plainp[-1], "3", "update_parameter", None]] if plainp else []),
+                                                  ["call", "0", pt],
+                                                  ["edit", {"op": "update_reaction", "name": k, "fn": new}], ["call", "1", pt]]})
         plain = [(k, v["v"]) for k, v in c["content"]["pars"] if "v" in v]
         if not plain:
             continue
@@ -1202,7 +1292,8 @@ def piecewise_stratum(ctx):
 
     from . import c12_pwlib as L
 
-    specs = [(L.pw_le, 1), (L.pw_lt, 1), (L.pw_ge, 1), (L.pw_gt, 1), (L.pw_window, 2), (L.pw_window2, 2), (L.pw_elif, 2)]
+    specs = [(L.pw_le, 1), (L.pw_lt, 1), (L.pw_ge, 1), (L.pw_gt, 1), (L.pw_window, 2), (L.pw_window2, 2), (L.pw_elif, 2),
+             (L.pw_rebind, 1), (L.pw_rebind_arg, 1), (L.pw_rebind_tmp, 2), (L.pw_rebind_elif, 2)]
     for (fn, nthr), (lo, hi, k) in itertools.product(specs, [(1.0, 3.0, 2.0), (2.0, 5.0, 0.5), (0.0, 4.0, 3.0)]):
         m = Model().add_variable("x", 1.0).add_variable("y", 0.0).add_parameter("k", k).add_parameter("lo", lo)
         m.add_parameter("hi", hi)
